@@ -29,5 +29,6 @@ def run(ctx):
     ctx.guarded("C01.revisit", lambda c: cv.revisit_rule(c, "C01", "json"))
     ctx.guarded("C01.rangenamed", lambda c: cv.rangenamed_rule(c, "C01", "json"))
     ctx.guarded("C01.tableclaim", lambda c: cv.tableclaim_rule(c, "C01"))
+    ctx.guarded("C01.choicerollback", lambda c: cv.choicerollback_rule(c, "C01"))
     import prelude_scalar as ps
     ctx.guarded("C01.prelude", lambda c: ps.rule(c, "C01", "json"))
